@@ -999,6 +999,17 @@ class StepCtx:
             self.nonatomic_access(o, ref[1], write=False, what="read " + ref[1])
             o.events.append("clone task waker")
             return cont(self.get_shared(o, ref[1]))
+        if callee == "Waker::wake_by_ref":
+            ref = self.operand(o, f, key, args[0])
+            if not ref or ref[0] != "waker":
+                raise Unsupported("Waker::wake_by_ref on " + str(ref))
+            # uses the waker stored in the waiter's own future: an access to the waiter's memory
+            self.touch_frame(o, ref[1])
+            self.nonatomic_access(o, ref[1], write=False, what="read " + ref[1] + " (wake_by_ref on the stored waker)")
+            o.shared["woken"] = z3.BoolVal(True)
+            o.vc[t] = o.vc[t] + 1
+            o.events.append("Waker::wake_by_ref on the waker stored in the waiter")
+            return cont(None)
         if callee == "Waker::wake":
             o.shared["woken"] = z3.BoolVal(True)
             o.vc[t] = o.vc[t] + 1
